@@ -232,15 +232,25 @@ func emitFragment(e *emitter, p *pkg) {
 	strFact("rxFragOff", fo, oko)
 	strFact("rxFragLen", fl, okl)
 
-	// --- writeHandshakeRecord: single-record test, fragment body size, loop
+	// --- writeHandshakeRecord: single-record test, fragment body size, loop.
+	// INFORMATIONAL since the translation tie: the function is translated to Lean on every run
+	// (go2lean, namespace Src.dtlcp.tx) and lean/Gotlcp/Tie/TxFragment*.lean prove the translated text equal
+	// to the model for all inputs (C17_src_tx_is_model), so no theorem pins these text facts and a renamed
+	// local must not break a check: they are never "missing".
+	infoFact := func(name, v string, ok bool) {
+		if !ok {
+			v = ""
+		}
+		e.str(name, v)
+	}
 	single := findIf(p, "Conn.writeHandshakeRecord", "len(data) <= maxPayload")
 	e.boolean("txSingleWhenFits", single != nil && endsInReturn(single.Body))
 	mfb, okm := assignRHS(p, "Conn.writeHandshakeRecord", "maxFragBody")
-	strFact("txMaxFragBody", mfb, okm)
+	infoFact("txMaxFragBody", mfb, okm)
 	small := findIf(p, "Conn.writeHandshakeRecord", "maxFragBody <= 0")
 	e.boolean("txZeroFragBodyIsError", small != nil && endsInReturn(small.Body))
 	fe, okf := assignRHS(p, "Conn.writeHandshakeRecord", "fragEnd")
-	strFact("txFragEnd", fe, okf)
+	infoFact("txFragEnd", fe, okf)
 	clamp := findIf(p, "Conn.writeHandshakeRecord", "fragEnd > bodyLen")
 	e.boolean("txFragEndClamped", clamp != nil && len(clamp.Body.List) == 1 && p.src(clamp.Body.List[0]) == "fragEnd = bodyLen")
 	loop := ""
@@ -258,10 +268,12 @@ func emitFragment(e *emitter, p *pkg) {
 			return true
 		})
 	}
-	strFact("txLoop", loop, loop != "")
+	infoFact("txLoop", loop, loop != "")
 
 	// --- transcripts: the sender hashes the marshalled, unfragmented `data` before it splits;
-	// the receiver hashes the delivered (rebuilt) message once
+	// the receiver hashes the delivered (rebuilt) message once.  The three sender facts (txTranscriptWrites,
+	// txTranscriptBeforeSplit, txDataIsMarshal) are INFORMATIONAL since the translation tie (proved of the
+	// translated writeHandshakeRecord: C17_src_tx_is_model / C17_src_tx_fragments); no theorem pins them.
 	calls := func(fn, prefix string) (out []string, pos []token.Pos) {
 		fd := p.funcs[fn]
 		if fd == nil || fd.Body == nil {
@@ -311,43 +323,109 @@ func emitFragment(e *emitter, p *pkg) {
 	}
 	e.boolean("txTranscriptBeforeSplit", before)
 	e.boolean("txDataIsMarshal", marshalOK && dataAssigns == 1)
-	// the fragment loop builds every header in a fresh local array and never writes into the
-	// marshalled encoding (`data` / `hdr` alias the message's cached raw bytes)
+	// the fragment loop builds every header in an array declared INSIDE the loop and never writes into the
+	// marshalled encoding (the slice `marshal()` returned and every slice cut from it alias the message's
+	// cached raw bytes) nor hands it to a call that could (anything but `len`, or `append` with the alias as a
+	// SOURCE).  Extracted without reference to the names of the locals: `aliases` = the first result of the
+	// `….marshal()` assignment, closed under `x := a[lo:hi]` / `x := a`; `local` = arrays declared by a
+	// `var x [N]byte` statement in the loop body.
 	fresh := false
 	if fd := p.funcs["Conn.writeHandshakeRecord"]; fd != nil {
+		aliases := map[string]bool{}
+		baseIdent := func(x ast.Expr) string {
+			for {
+				switch y := x.(type) {
+				case *ast.SliceExpr:
+					x = y.X
+					continue
+				case *ast.IndexExpr:
+					x = y.X
+					continue
+				case *ast.ParenExpr:
+					x = y.X
+					continue
+				case *ast.Ident:
+					return y.Name
+				}
+				return ""
+			}
+		}
+		ast.Inspect(fd.Body, func(n ast.Node) bool {
+			as, ok := n.(*ast.AssignStmt)
+			if !ok || len(as.Rhs) != 1 || len(as.Lhs) == 0 {
+				return true
+			}
+			l0, ok := as.Lhs[0].(*ast.Ident)
+			if !ok {
+				return true
+			}
+			if c, ok := as.Rhs[0].(*ast.CallExpr); ok {
+				if se, ok := c.Fun.(*ast.SelectorExpr); ok && se.Sel.Name == "marshal" {
+					aliases[l0.Name] = true
+				}
+				return true
+			}
+			if len(as.Lhs) == 1 {
+				switch as.Rhs[0].(type) {
+				case *ast.SliceExpr, *ast.Ident:
+					if b := baseIdent(as.Rhs[0]); b != "" && aliases[b] {
+						aliases[l0.Name] = true
+					}
+				}
+			}
+			return true
+		})
 		ast.Inspect(fd.Body, func(n ast.Node) bool {
 			fs, ok := n.(*ast.ForStmt)
 			if !ok {
 				return true
 			}
-			decl, clean := false, true
+			local := map[string]bool{}
+			ast.Inspect(fs.Body, func(m ast.Node) bool {
+				if ds, ok := m.(*ast.DeclStmt); ok {
+					if gd, ok := ds.Decl.(*ast.GenDecl); ok && gd.Tok == token.VAR {
+						for _, sp := range gd.Specs {
+							if vs, ok := sp.(*ast.ValueSpec); ok {
+								if _, isArr := vs.Type.(*ast.ArrayType); isArr {
+									for _, nm := range vs.Names {
+										local[nm.Name] = true
+									}
+								}
+							}
+						}
+					}
+				}
+				return true
+			})
+			clean := true
 			ast.Inspect(fs.Body, func(m ast.Node) bool {
 				switch x := m.(type) {
-				case *ast.DeclStmt:
-					if strings.HasPrefix(p.src(x), "var fragHdr [dtlcpHeaderLen]byte") {
-						decl = true
-					}
 				case *ast.AssignStmt:
 					for _, l := range x.Lhs {
-						if ie, ok := l.(*ast.IndexExpr); ok && p.src(ie.X) != "fragHdr" {
-							clean = false
-						}
-						if se, ok := l.(*ast.SliceExpr); ok && p.src(se.X) != "fragHdr" {
-							clean = false
+						switch l.(type) {
+						case *ast.IndexExpr, *ast.SliceExpr:
+							if !local[baseIdent(l)] {
+								clean = false
+							}
 						}
 					}
 				case *ast.CallExpr:
-					if len(x.Args) > 0 {
-						a0 := p.src(x.Args[0])
-						f := p.src(x.Fun)
-						if (a0 == "hdr" || a0 == "data" || strings.HasPrefix(a0, "hdr[") || strings.HasPrefix(a0, "data[")) && f != "len" {
+					f := p.src(x.Fun)
+					if f == "len" {
+						return true
+					}
+					for i, a := range x.Args {
+						if b := baseIdent(a); b != "" && aliases[b] {
+							if f == "append" && i > 0 {
+								continue // a source of append is only read
+							}
 							clean = false
 						}
 					}
 				}
 				return true
 			})
-			fresh = decl && clean
+			fresh = len(local) > 0 && clean && len(aliases) > 0
 			return false
 		})
 	}
